@@ -280,3 +280,15 @@ func specFiniteFloat32(f float32) bool {
 //@   auto
 //@   at call fn assert [C06.indent] implies(count >= 0 && len(padChar) == 1, len(callee.a1) >= count && forall(k, 0, count, callee.a1[k] == padChar[0]))
 //@   ensures [C06.indent-single] ghost.ioContains || implies(count >= 0 && len(padChar) == 1, len(result) == count + len(str) && forall(k, 0, count, result[k] == padChar[0]) && forall(k, 0, len(str), result[count+k] == str[k]))
+
+// ---- C04: a slice of times is a JSON array of strings: every separator is followed by an element
+//@ func (*PrintCtx).appendTime
+//@   props C02 C04
+//@   auto
+//@   ensures [C04.time-quoted] implies(s.jsonMode || s.noColor, len(s.buf) > 0 && s.buf[len(s.buf)-1] == 34)
+
+//@ func (*PrintCtx).appendTimeSlice
+//@   props C02 C04
+//@   auto
+//@   loop 1 invariant [C04.elem-follows-sep] implies(s.jsonMode, len(s.buf) > 0 && s.buf[len(s.buf)-1] == 34)
+//@   ensures [C04.slice-closed] len(s.buf) > 0 && s.buf[len(s.buf)-1] == 93
